@@ -65,6 +65,8 @@ fn dump() {
         may("p_unwrap", a, p_unwrap);
         may("p_slices", a, p_slices);
         may("p_asserts", a, p_asserts);
+        may("p_more", a, p_more);
+        show("z_more2", a, z_more2(a));
         // functions with overflow-prone arithmetic only on small inputs
         if a.iter().all(|x| *x < 1000) {
             show("z_option", a, z_option(a));
